@@ -159,7 +159,11 @@ func c13Request(rng *rand.Rand) lreq {
 	if rng.IntN(3) == 0 {
 		lr.Headers["X-Deny"] = []string{"1", "0"}[rng.IntN(2)]
 	}
-	switch rng.IntN(5) {
+	switch rng.IntN(7) {
+	case 5:
+		lr.Headers["Cookie"] = "sess=s3cr3t; theme=dark; sess=second"
+	case 6:
+		lr.Headers["Cookie"] = "other=x; sess=first; other=y; sess=s3cr3t"
 	case 0:
 		lr.Headers["Cookie"] = "sess=s3cr3t"
 	case 1:
@@ -174,6 +178,9 @@ func c13Request(rng *rand.Rand) lreq {
 		lr.Body = b.body
 		if b.ct != "" {
 			lr.Headers["Content-Type"] = b.ct
+		}
+		if rng.IntN(3) == 0 { // HTTP entry points: no announced length (chunked); Envoy always buffers
+			lr.Headers["X-Verif-Chunked"] = "1"
 		}
 	}
 	return lr
